@@ -98,7 +98,7 @@ def _worker(prop, tier, seed, j, W, n, outpath, budget_s):
     }
     digs = set()
     sigs = set()
-    keep_digests = os.environ.get("VERIF_KEEP_DIGESTS") == "1"
+    keep_digests = bool(os.environ.get("VERIF_DIGEST_OUT"))
     for i in range(j, n, W):
         rng = R.run_rng(seed, prop.ID, i)
         try:
@@ -396,6 +396,12 @@ def finish(prop, tier, seed, n, W, aggs, failed, t0):
         samples.extend(a["samples"])
     for k in keep:
         keep[k].sort(key=lambda e: e["run_index"])
+    if os.environ.get("VERIF_DIGEST_OUT"):
+        allr = {}
+        for a in aggs:
+            allr.update(a.get("run_digests") or {})
+        with open(os.environ["VERIF_DIGEST_OUT"], "w") as f:
+            json.dump(allr, f)
 
     known_lines, unknown_keys = [], []
     for k in sorted(counts):
@@ -478,10 +484,11 @@ def finish(prop, tier, seed, n, W, aggs, failed, t0):
             ev["coverage"].update(extra(tier, ev["coverage"]))
         except Exception:
             traceback.print_exc()
-    os.makedirs(os.path.join(VERIF, "evidence"), exist_ok=True)
-    with open(os.path.join(VERIF, "evidence", prop.ID + ".json"), "w") as f:
-        json.dump(ev, f, indent=1, default=repr)
-        f.write("\n")
+    if os.environ.get("VERIF_NO_EVIDENCE") != "1":
+        os.makedirs(os.path.join(VERIF, "evidence"), exist_ok=True)
+        with open(os.path.join(VERIF, "evidence", prop.ID + ".json"), "w") as f:
+            json.dump(ev, f, indent=1, default=repr)
+            f.write("\n")
 
     print("%s tier=%s seed=%d runs=%d nontrivial_distinct=%d oracle_evals=%d interleavings=%d wall=%.1fs (%d runs/h)" % (
         prop.ID, tier, seed, tot["evaluations"], len(digs), tot["evaluated"], len(sigs), wall, ev["coverage"]["runs_per_hour"]))
